@@ -95,3 +95,7 @@ open Csproto
 #print axioms Csproto.C02.Source.skip_walk
 #print axioms Csproto.Bridge.EncoderFuncs.EncodeMapEntryHeader_refines
 #print axioms Csproto.Bridge.EncoderFuncs.EncodeRaw_refines
+#print axioms Csproto.Bridge.EncoderFuncs.EncodeFixed32_ok
+#print axioms Csproto.Bridge.EncoderFuncs.EncodeFixed64_ok
+#print axioms Csproto.Bridge.EncoderFuncs.EncodeFixed32_refines
+#print axioms Csproto.Bridge.EncoderFuncs.EncodeFixed64_refines
